@@ -14,7 +14,7 @@ for d in sorted(glob.glob(V + "/seeded/*")):
     ch = meta["checks"]
     caught = [k for k, v in ch.items() if isinstance(v, dict) and v["result"] == "caught"]
     missed = [k for k, v in ch.items() if isinstance(v, dict) and v["result"] == "missed"]
-    if name.startswith(("R3-", "R4-", "R5-")):        # round 3: every claimed check was run; list the named-but-quiet ones
+    if name.startswith(("R3-", "R4-", "R5-", "R6-")):        # round 3: every claimed check was run; list the named-but-quiet ones
         missed = meta.get("named_but_quiet", [])
         if not caught:
             own_missed.append(name)
@@ -27,7 +27,8 @@ for d in sorted(glob.glob(V + "/seeded/*")):
 table = (f"{n} changes are stored (`-m1/-m2`: first round, `-r2m1/-r2m2`: second round asking for harder changes: multi-step\n"
          "sequences, cooperating sites, rare configurations, numerical coincidences; `R3-<region>-mK`: third round, three changes per\n"
          "source file; `R4-gK-mN`: fourth round, three changes per group of public entry points; `R5-Cxx`: fifth round, one change per\n"
-         "property asking for cooperating sites / multi-step histories / unusual inputs / coincidences; for R3/R4/R5 ALL 20 checks were run\n"
+         "property asking for cooperating sites / multi-step histories / unusual inputs / coincidences; `R6-Cxx-mK`: sixth round, two such\n"
+         "changes for each of ten properties; for R3/R4/R5/R6 ALL 20 checks were run\n"
          "against each change and the last column lists the properties the author named whose check stayed quiet). "
          + ("Every change is caught by the check of the property it was written for"
             + (f", except {', '.join(own_missed)} (caught by the checks listed)" if own_missed else "") + ".\n\n")
